@@ -42,6 +42,8 @@ class Fn:
     as_method_of: str = None      # wrap in `impl X { }` (default: container if inherent)
     drop_self_impl: bool = False
     obligation: str = None        # human name of what the ensures states
+    contract_only: bool = False   # emit signature + contract with an external_body stub: the contract is *assumed* in this unit
+                                  # (it is the identical text proved against the real body in another unit)
     cut_before: str = None        # fragment extraction: keep the body up to (excluding) the statement starting with this text,
     cut_tail: str = ""            # ... and continue with this (opaque) tail expression; the dropped part is NOT verified
     as_spec: bool = False         # emit the *same body* as `pub open spec fn <name>_spec` (pure match/if code only):
@@ -311,6 +313,15 @@ def generate(unit: Unit, root, rules_mod):
             t = to_spec_fn(t, it, where)
             n_loops = 0
             meta["rewrites"].append({"where": where, "kind": "as-spec", "old": "fn " + it.name, "new": "pub open spec fn " + it.name + "_spec (same body)", "count": 1})
+        elif it.contract_only:
+            import copy as _copy
+            it2 = _copy.copy(it)
+            it2.loops, it2.ghost = {}, []
+            t, n_loops = annotate_fn(t, it2, meta["rewrites"], where)
+            mt_ = mask(t)
+            bo = find_top_level(mt_, mt_.index("fn "), "{")
+            t = "#[verifier::external_body]\n" + t[:bo] + "{ unimplemented!() }"
+            meta["rewrites"].append({"where": where, "kind": "contract-only", "old": "<body>", "new": "external_body stub (contract proved in its own unit)", "count": 1})
         else:
             t, n_loops = annotate_fn(t, it, meta["rewrites"], where)
         wrap = it.as_method_of if it.as_method_of else (it.container if (it.container and " for " not in it.container and not it.drop_self_impl) else None)
